@@ -6,7 +6,10 @@ use crate::{GDError, GDResult};
 
 use super::Unreal2StringDecoder;
 
+#[cfg(not(gamedig_verif))]
 use std::collections::{HashMap, HashSet};
+#[cfg(gamedig_verif)]
+use crate::verif_hook::collections::{HashMap, HashSet};
 
 use byteorder::ByteOrder;
 
